@@ -13,3 +13,18 @@ pub mod session;
 mod slot;
 pub mod slowlog;
 mod table;
+
+// Verification hook (add-only, compiled only with `--cfg undermoon_verif`): lets the /verif harness build the
+// slot table directly (`SlotMapData::new`, `SlotMap::from_ranges`) and read every entry.
+#[cfg(undermoon_verif)]
+pub mod verif_slot {
+    pub use super::slot::{SlotMap, SlotMapData};
+}
+
+// Verification hook (add-only, compiled only with `--cfg undermoon_verif`): lets the /verif harness call the value
+// compressor and the reply decompressor directly (`CmdCompressor::try_compressing_cmd_ctx`,
+// `CmdReplyDecompressor::decompress`) with a fixed strategy, besides driving them through the command handler.
+#[cfg(undermoon_verif)]
+pub mod verif_compress {
+    pub use super::compress::*;
+}
